@@ -175,7 +175,7 @@ def _short(s):
 def check_subject(acc, subj, budget, rng_mode, b, rseed):
     horizon = b["horizon_managers"] if subj.kind == "manager" else b["horizon"]
     cfg = {"subject": subj.name, "budget": budget, "rng": rng_mode, "seed": rseed}
-    queries = G.chunks_of(subj, b["query_chunks"])
+    queries = G.chunks_of(subj, b["query_chunks"], with_empty=True)
     singles = G.chunks_of(subj, 1)
     conts = [(c,) for c in singles] + [(c, d) for c in singles for d in singles]
     if subj.kind == "strategy":  # keep the continuation menu small for the slower subjects: all singles, pairs starting with each symbol once
@@ -275,7 +275,7 @@ def replay(spec):
         warnings.simplefilter("ignore")
         hist = [(tuple(c), tuple(int(x) for x in t)) for c, t in spec["history"]]
         obj, _ = G.replay_history(subj, float(spec["budget"]), spec["rng"], hist, UV, seed=int(spec.get("seed", 0)))
-        queries = G.chunks_of(subj, b["query_chunks"])
+        queries = G.chunks_of(subj, b["query_chunks"], with_empty=True)
         singles = G.chunks_of(subj, 1)
         conts = [(c,) for c in singles] + [(c, d) for c in singles for d in singles]
         if subj.kind == "strategy":
